@@ -15,7 +15,8 @@ import fuzzylite as fl
 PID = "C06"
 MODULES = ["FlVerif.Props.C06"]
 NAMESPACE = "C06"
-TIE_A = ["Norm.", "Hedge.", "code:fuzzylite.term.Function.infix_to_postfix", "code:fuzzylite.rule.Antecedent.load"]
+TIE_A = ["Norm.", "Hedge.", "code:fuzzylite.term.Function.infix_to_postfix", "code:fuzzylite.rule.Antecedent.load",
+         "code:fuzzylite.rule.Antecedent.activation_degree", "code:fuzzylite.term.Aggregated.activation_degree"]
 RULE = ("antecedent trees to depth 4 over 1-3 input variables and 1-2 output variables (with 0-3 prior activations, "
         "repeated terms, every aggregation operator or none), 0-3 hedges per proposition, `any`, disabled variables, "
         "written with minimal | random redundant | full parentheses, with / without spaces around parentheses, every "
@@ -255,6 +256,10 @@ def run_impl(case):
     out["postfix"] = rule.antecedent.postfix().split()
     out["infix"] = rule.antecedent.infix().split()
     out["weight"] = float(rule.weight)
+    for name in case.get("clear_after_load", []):      # kind "lost_terms": the variable loses its terms after Rule.load
+        for v in engine.variables:
+            if v.name == name:
+                v.terms.clear()
     conj, disj = norm_of(case["conj"], "t"), norm_of(case["disj"], "s")
     degs = []
     with np.errstate(all="ignore"):
@@ -382,6 +387,13 @@ def oracle(case):
                        f"(`if variable:` is false for it), got load={r['load']} {r['msg']}")
     if r["load"] != "ok":
         return False, f"rule from the grammar rejected: '{case['text']}': {r['load']} {r['msg']}"
+    if case.get("kind") == "lost_terms":
+        # a variable of the loaded antecedent has no terms any more: the variable object is false (`Variable.__len__`),
+        # `Antecedent.activation_degree` raises ValueError (Lean: the else-branch of C06.code_activationDegree)
+        if all(d == "value" for d in r["degrees"]):
+            return True, "a variable that lost its terms after loading: ValueError"
+        return False, (f"'{case['text']}' evaluated after {case['clear_after_load']} lost their terms: expected a ValueError "
+                       f"for every row, got {r['degrees']}")
     exp_pf, exp_in = apostfix(case["tree"]), ainfix(case["tree"])
     if r["postfix"] != exp_pf:
         return False, f"'{case['text']}' read as [{' '.join(r['postfix'])}], grammar reading [{' '.join(exp_pf)}]"
@@ -502,6 +514,8 @@ def correspond(ctx):
                 engine = build_engine(case)
                 for i, md in enumerate(m[5]):
                     got = r["degrees"][i]
+                    if case.get("kind") == "lost_terms":
+                        md = ["err", "value"]    # C06.code_activationDegree: not all variables have a term -> ValueError
                     if isinstance(md, list):     # (err kind)
                         if got != md[1]:
                             bad = f"row {i}: model raises {md[1]}, implementation {got!r}"
